@@ -548,9 +548,58 @@ pub fn clidump(ctx: &mut Ctx) {
     let _ = build;
 }
 
+/// solo — every corpus program (the large ones included) alone through `PushInterpreter::run` under four
+/// configurations (default limits, growth cap 5, growth cap 0, step limit 20), twice; the two runs must
+/// agree, and the outcome (run result + full final state) is digested per case: the supervisor compares the
+/// digests of the overflow-checking and of the release build (the build-profile clause on whole runs, where
+/// `order` decides it on single steps).
+pub fn solo(ctx: &mut Ctx) {
+    let mut real = Real::new();
+    let mut progs = corpus(ctx.tier_thorough);
+    progs.extend(corpus_big().into_iter().filter(|p| !p.render().contains("EXEC.CMD")));
+    ctx.extra.push(("corpus".into(), crate::core::J::Int(progs.len() as i64)));
+    let cfgs: [(&str, Option<i32>, Option<i32>); 4] = [("default", None, None), ("growth_cap=5", Some(5), None), ("growth_cap=0", Some(0), None), ("eval_push_limit=20", None, Some(20))];
+    for p in &progs {
+        let text = p.render();
+        for (label, cap, limit) in cfgs.iter() {
+            let id = match ctx.take() {
+                Some(id) => id,
+                None => continue,
+            };
+            ctx.transitions += 2;
+            ctx.states += 1;
+            let Real { iset, .. } = &mut real;
+            let mut once = || {
+                let r = guarded(|| {
+                    let mut st = PushState::new();
+                    pushr::push::verif::install_clock(0);
+                    if let Some(c) = cap {
+                        st.configuration.growth_cap = *c as _;
+                    }
+                    if let Some(l) = limit {
+                        st.configuration.eval_push_limit = *l;
+                    }
+                    PushParser::parse_program(&mut st, iset, &text);
+                    let outcome = PushInterpreter::run(&mut st, iset);
+                    format!("{:?}|{}", outcome, observe(&st).key())
+                });
+                pushr::push::verif::clear_clock();
+                r.unwrap_or_else(|e| format!("PANIC {}", panic_class(&e)))
+            };
+            let a = once();
+            let b = once();
+            let v = if a == b { Verdict::Pass } else { Verdict::fail("solo", "nondeterministic", format!("{} then {}", crate::core::trunc(&a, 300), crate::core::trunc(&b, 300))) };
+            let okey = format!("{}|{}|{}", label, crate::core::trunc(&text, 80), a);
+            ctx.nontrivial_mark(&okey);
+            ctx.record(id, &okey, v, || format!("{} under {}", crate::core::trunc(&text, 300), label));
+        }
+    }
+}
+
 pub fn run(ctx: &mut Ctx) {
     match ctx.family.as_str() {
         "order" => order(ctx),
+        "solo" => solo(ctx),
         "orderrev" => order_rev(ctx),
         "pairs" => pairs(ctx),
         "carry" => carry(ctx),
